@@ -1,0 +1,22 @@
+//go:build !verif
+
+// Package verifhook holds verification hooks. Without the verif build tag
+// every hook is a constant the compiler removes.
+package verifhook
+
+import (
+	"context"
+	"net"
+)
+
+// Background reports whether background janitor loops may run.
+func Background() bool { return true }
+
+// DialActive reports whether an in-memory dialer is installed.
+func DialActive() bool { return false }
+
+// Dial is never called without the verif tag.
+func Dial(context.Context, string, string) (net.Conn, error) { return nil, nil }
+
+// Fail is a failpoint; it never fails without the verif tag.
+func Fail(string) error { return nil }
